@@ -54,6 +54,14 @@ def _find_attached(doc: Any, kinds: list, sel: int, exclude: Any = None) -> Any:
     return cands[sel % len(cands)]
 
 
+def _unevaluable(x: Any) -> bool:
+    try:
+        x.value
+    except ArithmeticError:
+        return True
+    return False
+
+
 class Bad:
     def __init__(self) -> None:
         self.call: Callable[[], Any] = lambda: None
@@ -204,6 +212,26 @@ def resolve_bad(root: Any, other: Any, op: dict) -> Bad:
         b.what = f'{type(P).__name__}.{p.name} = the {p.name} of another {type(Q).__name__} (still attached there)'
         b.nontrivial = len(w) > 0 or len(getattr(P, p.name)) > 0
         b.call = lambda: setattr(P, p.name, w)
+        return b
+    if k == 'pop-unevaluable':
+        # values.pop(i) / meta.pop(key) of a value whose evaluation raises (1 / 0): the exception is legitimate, a changed document is not
+        P = OPS.find_model(root, op['cls'], op['mi'], idx)
+        b.cls, b.key, b.nontrivial = 'b:index-key', f'pop-unevaluable:{op["via"]}', True
+        if op['via'] == 'values':
+            raws = list(P.raw_values)
+            bad_i = [i for i, x in enumerate(raws) if type(x).__name__ == 'NumberExpr' and _unevaluable(x)]
+            if not bad_i:
+                raise OPS.NotApplicable('no unevaluable value')
+            i = bad_i[op.get('sel', 0) % len(bad_i)]
+            b.what = f'Custom.values.pop({i}) of {O.print_text(raws[i])!r}'
+            b.call = lambda: P.values.pop(i)
+        else:
+            keys = [x.key for x in P.raw_meta if type(x.raw_value).__name__ == 'NumberExpr' and _unevaluable(x.raw_value)]
+            if not keys:
+                raise OPS.NotApplicable('no unevaluable value')
+            key = keys[op.get('sel', 0) % len(keys)]
+            b.what = f'{type(P).__name__}.meta.pop({key!r})'
+            b.call = lambda: P.meta.pop(key)
         return b
     if k == 'meta-update':
         # mapping.update with an attached node as a later value: refused, and the keys in front of it are not applied
@@ -705,6 +733,10 @@ def _enum_costforms(maxlen: int):
 
 def _enum_custom_ctor():
     doc = [[['X', '2000-01-01 custom "a" "s" -3\n2000-01-02 custom "b" 5 +2 USD\n2000-01-03 balance Assets:A  -4 USD\n2000-01-04 custom "c" 7\n']]]
+    doc0 = [[['X', '2000-01-01 custom "budget" 2 1/0 "s" (2 - 2) / (1 - 1)\n  note: 3 / 0\n  ok: 1\n2000-01-02 close Assets:A\n  rate: 1 / (5 - 5)\n']]]
+    for via, cls in (('values', 'Custom'), ('meta', 'Custom'), ('meta', 'Close')):
+        for sel in range(2):
+            yield {'dirs': doc0, 'dirs2': doc, 'ops': [{'f': 'bad', 'k': 'pop-unevaluable', 'via': via, 'cls': cls, 'mi': 0, 'sel': sel}]}
     for which in range(3):
         yield {'dirs': doc, 'dirs2': doc, 'ops': [{'f': 'bad', 'k': 'ctor-duplicate', 'which': which}]}
     for cls, sel, src_other in itertools.product(('Custom', 'Balance'), range(4), (False, True)):
